@@ -941,7 +941,8 @@ def run(prop, tier, seed):
         nbase += 1
         names = {n for n, _, _ in refchk.split_chunks(data)}
         have = {"unis": 100 if b"UNIS" in names else (130 if b"UNIx" in names else 0), "wav": b"WAV " in names}
-        for j in range(per_base):
+        big = len(data) > 500000
+        for j in range(per_base if not (big and tier == "quick") else 2):
             Author._existing = {}
             author = Author(rng, spec, classes, data)
             mode = "single" if j % 3 != 2 else "multi"
@@ -952,7 +953,7 @@ def run(prop, tier, seed):
             author = Author(rng, spec, classes, data)
             for what, hist, mode, may_raise in special_histories(author, rng):
                 scenarios.append({"tag": tag, "base": data, "base_out": base_out, "history": hist, "mode": mode, "kind": "special:" + what, "may_raise": may_raise})
-        if prop == "C11" and (tier == "thorough" or nbase < 4):
+        if prop == "C11" and (tier == "thorough" or nbase in (1, 3, 4)):
             Author._existing = {}
             author = Author(rng, spec, classes, data)
             for item in degenerate_histories(author, rng):
